@@ -1,29 +1,114 @@
-"""C10, round 4 — `_convolve.cpp` (convolve, rank_filter, mean_filter, template_match, daubechies coefficient tables) .
+"""C10, round 4 — `_convolve.cpp: rank_filter`: the scratch vector `n_data` (lean/Mahotas/Model/C10Conv.lean).
 
-Same interface as c10_misc.py: `KINDS` (the model2 kinds answered by lean/Mahotas/Model/C10Conv.lean),
-`line_and_direct(w, q)` -> (line, [(index, size)], term, extra) with a DIRECT Python re-evaluation of the C++ index
-expressions, `model_cases(rng, n)`; `REAL_KIND` cases compare what the model computes with the real binary.
+model2 cases: the stores `neighbours[n++]`, the `nth_element` range and the read `neighbours[currank]` of one pixel, for
+arbitrary `retrieve` outcomes, against a direct Python re-evaluation of the C++ (with the C++ `double` arithmetic for `currank`);
+out-of-range ranks (the kernel returns at once) included.
+convreal cases: the RESULT of the real `mahotas.rank_filter` in `ignore` mode on images with distinct values: at every pixel the
+value returned must be the `currank`-th smallest of the `n` neighbours inside the image with `n`, `currank` as the model computes
+them (this observes `n`, the store order-independent selection and `currank` through the binary).
 """
 from __future__ import annotations
-import json
+import itertools, json
 import numpy as np
 from .. import core, iso
 
-KINDS = ()
+KINDS = ('rankpixel',)
 REAL_KIND = 'convreal'
 
 
+def _csv(v):
+    return ','.join(str(int(x)) for x in v) or '-'
+
+
+def py_rankpixel(n2, rank, const, retr):
+    """rank_filter, one pixel (C++ lines: the rank test, the j loop, currank, the final read)"""
+    if rank < 0 or rank >= n2:
+        return [], True, dict(cnt='0', currank='0', nthok='1', fresh='0')
+    acc, n = [], 0
+    for j in range(n2):
+        if retr[j]:
+            acc.append((n, n2)); n += 1
+        elif const:
+            acc.append((n, n2)); n += 1
+    currank = rank
+    if n != n2:
+        currank = int(n * rank / float(n2))
+    acc.append((currank, n2))
+    return acc, True, dict(cnt=str(n), currank=str(currank), nthok=str(int(0 <= currank <= n)), fresh=str(int(currank < n)))
+
+
+def line_for(q):
+    return f"c10 kind=rankpixel n2={q['n2']} rank={q['rank']} const={q['const']} retr={_csv(q['retr'])}"
+
+
 def line_and_direct(w, q):
-    raise core.Infra(f'unknown conv kind {w}')
+    return (line_for(q),) + py_rankpixel(q['n2'], q['rank'], q['const'], q['retr'])
 
 
 def model_cases(rng, n):
-    return []
+    out, R = [], rng.randint
+    for _ in range(n):
+        n2 = R(1, 27)
+        p = rng.choice([0.0, 0.3, 0.8, 1.0])
+        q = dict(n2=n2, rank=R(0, n2 - 1), const=rng.choice([0, 0, 1]), retr=[int(rng.random() < p) for _ in range(n2)])
+        u = rng.random()
+        if u < 0.15:
+            q['rank'] = rng.choice([-1, n2, n2 + 3, -5])       # rejected by the kernel's own test: no access
+        out.append(dict(kind='model2', which='rankpixel', p=q, domain=True))
+    return out
 
 
 def real_cases(rng, n):
-    return []
+    out, R = [], rng.randint
+    for _ in range(n):
+        nd = rng.choice([1, 2, 2, 3])
+        shape = [R(1, {1: 9, 2: 6, 3: 4}[nd]) for _ in range(nd)]
+        bshape = [rng.choice([1, 2, 3, 3, 5]) for _ in range(nd)]
+        bimg = [int(rng.random() < 0.7) for _ in range(int(np.prod(bshape)))]
+        if not any(bimg):
+            bimg[rng.randrange(len(bimg))] = 1
+        n2 = sum(bimg)
+        out.append(dict(kind=REAL_KIND, which='rankfilter', p=dict(shape=shape, bshape=bshape, bimg=bimg, rank=R(0, n2 - 1),
+                                                                 seed=rng.randrange(1 << 30), dtype=rng.choice(['int32', 'uint8', 'float64']))))
+    return out
 
 
 def eval_real(case, SRC):
-    raise core.Infra('no convreal cases yet')
+    import mahotas as mh
+    q = case['p']
+    shape, bshape = q['shape'], q['bshape']
+    N = int(np.prod(shape))
+    r = np.random.RandomState(q['seed'])
+    img = (r.permutation(N) + 1).reshape(shape).astype(q['dtype'])          # distinct values
+    Bc = np.array(q['bimg'], dtype=q['dtype']).reshape(bshape)
+    res = mh.rank_filter(img, Bc, q['rank'], mode='ignore')
+    n2 = int(sum(q['bimg']))
+    offs = [tuple(k[d] - bshape[d] // 2 for d in range(len(shape))) for k in itertools.product(*[range(s) for s in bshape])]
+    lines, wants = [], []
+    for pos in itertools.product(*[range(s) for s in shape]):
+        retr, vals = [], []
+        for k, o in zip(q['bimg'], offs):
+            if not k:
+                continue
+            p2 = tuple(pos[d] + o[d] for d in range(len(shape)))
+            inside = all(0 <= p2[d] < shape[d] for d in range(len(shape)))
+            retr.append(int(inside))
+            if inside:
+                vals.append(img[p2])
+        lines.append(f"c10 kind=rankpixel n2={n2} rank={q['rank']} const=0 retr={_csv(retr)}")
+        wants.append((pos, sorted(vals)))
+    fnd = []
+    tags = dict(kind=REAL_KIND, which='rankfilter', ndim=len(shape))
+    nstale = 0
+    for d, (pos, vals), line in zip(core.drive(lines), wants, lines):
+        if d.get('ok') != '1' or int(d['cnt']) != len(vals):
+            fnd.append(dict(kind='model', key='conv-real:rankfilter:count', detail=dict(line=line, answer=d, n=len(vals))))
+            break
+        if d['fresh'] != '1':
+            nstale += 1          # n = 0: the value is a stale cell of the scratch vector (defined, not fixed by the statement)
+            continue
+        if res[pos] != vals[int(d['currank'])]:
+            fnd.append(dict(kind='model', key='conv-real:rankfilter:value',
+                            detail=dict(case=q, pos=pos, real=float(res[pos]), model=float(vals[int(d['currank'])]), answer=d)))
+            break
+    return dict(findings=fnd, nontrivial=True, sig=json.dumps(q, sort_keys=True), n=N, tags=dict(tags, outcome='agree' if not fnd else 'differ', stale=nstale > 0))
